@@ -7,7 +7,7 @@ ID = "C19"
 LEVEL = "exploration"
 TECHNIQUE = "inline shadow monitor on hooked VM state (data words vs live frame geometry) at every instruction boundary, under ASan+UBSan"
 FLAVOURS = [("asan", "generated")]
-RULE = ("call-heavy generated programs (calls inside long loops, nested and chained calls, STOP inside callees, jumps out of loops; plus call chains 130-1100 activations deep and routines with hundreds of registers / parameters); half of them with reset() in the middle of the run (also inside callees) "
+RULE = ("call-heavy generated programs (calls inside long loops, nested and chained calls, STOP inside callees, jumps out of loops; plus call chains 130-1100 activations deep and routines with hundreds of registers / parameters); half of them with reset() in the middle of the run (also inside callees), a quarter with a snapshot copy of the machine assigned back onto it later (copy or move assignment) "
         "followed by a rerun, a third driven with stepping mode on and a fifth with every breakpoint enabled, the final HALT really dispatched; "
         "the driver checks after EVERY executed instruction (also between PREPARE and EXEC and right after RET) that the frames are "
         "contiguous from word 0 in call order and that the number of data words equals the sum of the live frame sizes; "
@@ -54,6 +54,11 @@ def make_cases(spec):
             # abandoned activations must be gone as well
             pts = sorted(set(r.choice([3, 7, 12, 19, 33, 60, 110, 250, 700, 1500, 4000]) for _ in range(r.randint(1, 4))))
             opts.append(("reset_at", " ".join(map(str, pts))))
+        elif r.random() < 0.5:
+            # a snapshot (copy of the machine) taken early, usually in the root script, and assigned back onto the machine later,
+            # usually while it is inside callees: the frames of the abandoned activations must go with them
+            a = r.choice([0, 1, 2, 3, 5, 8])
+            opts.append(("restore", "%d %d %d" % (a, a + r.choice([1, 2, 4, 7, 12, 19, 33, 60, 110, 250]), r.randint(0, 1))))
         cases.append({"mode": "run", "main": "main", "files": {"main": text}, "opts": opts})
     if spec["chunk"] < 3:
         for files, main, kind in programs.no_variable_sources(r):     # a root frame of zero words
@@ -86,6 +91,7 @@ def judge(cases, outs, part):
         part["stats"]["rets-observed"] += r["rets"]
         part["stats"]["calls-observed"] += r["calls"]
         part["stats"]["mid-run-resets"] += r.get("resets", 0)
+        part["stats"]["snapshots-assigned-back"] += r.get("restores", 0)
         part["stats"]["max-depth-seen"] = max(part["stats"]["max-depth-seen"], r["maxdepth"])
         part["stats"]["max-data-words-seen"] = max(part["stats"]["max-data-words-seen"], r["maxdata"])
         part["stats"]["halted" if r["done"] else "budget-exhausted"] += 1
